@@ -6,6 +6,17 @@ VERIF = os.path.dirname(os.path.dirname(os.path.dirname(os.path.abspath(__file__
 _TABLE = None
 
 
+def relax_key(k):
+    """site key modulo value-preserving wrappers: Try::branch(x) -> x, from_residual, payload/tuple projections of temporaries"""
+    prev = None
+    while prev != k:
+        prev = k
+        k = re.sub(r'Try::branch\(([^()]*)\)', r'\1', k)
+    k = re.sub(r'\b(tmp|var)(\.\w+)+', r'\1', k)
+    k = re.sub(r'(\.0)+', '.0', k)
+    return k
+
+
 def reviewed_table():
     global _TABLE
     if _TABLE is None:
@@ -56,6 +67,14 @@ def panic_clause(ctx, F, entries, rule='R-PANIC', stop=None, only_bodies=None, w
                 # entries may also describe their site by a pattern (`key_re`): the same site after a refactoring that
                 # renames temporaries or re-binds operands.  At most one entry may match, and it must be in the same function
                 cands = [e_ for k_, e_ in table.items() if e_.get('key_re') and re.fullmatch(e_['key_re'], s.key)]
+                if len(cands) == 1:
+                    ent = cands[0]
+            if ent is None:
+                # the same site seen through a wrapper that carries its operand unchanged (a helper returning Ok(..) and `?`,
+                # one more tuple level): keys are compared after erasing Try::branch(..) and payload projections.  Only entries
+                # whose argument is re-checked structurally (`requires`) may be matched this way, and only a unique one
+                rk = relax_key(s.key)
+                cands = [e_ for k_, e_ in table.items() if e_.get('requires') and relax_key(k_) == rk]
                 if len(cands) == 1:
                     ent = cands[0]
             if ent is None:
